@@ -125,6 +125,31 @@ func (p *parser) parseStatement() ast.Statement {
 		p.scope.labels = append(p.scope.labels, label) // Push the label
 		statement := p.parseStatement()
 		p.scope.labels = p.scope.labels[:len(p.scope.labels)-1] // Pop the label
+		// 12.7: continue Identifier needs the label of an enclosing
+		// IterationStatement; a: { for (;;) continue a } is an error.
+		inner := statement
+		for {
+			labelled, ok := inner.(*ast.LabelledStatement)
+			if !ok {
+				break
+			}
+			inner = labelled.Statement
+		}
+		iteration := false
+		switch inner.(type) {
+		case *ast.ForStatement, *ast.ForInStatement, *ast.WhileStatement, *ast.DoWhileStatement:
+			iteration = true
+		}
+		kept := p.scope.continues[:0]
+		for _, c := range p.scope.continues {
+			switch {
+			case c.label != label:
+				kept = append(kept, c)
+			case !iteration:
+				p.error(c.idx, "Illegal continue statement")
+			}
+		}
+		p.scope.continues = kept
 		exp := &ast.LabelledStatement{
 			Label:     identifier,
 			Colon:     colon,
@@ -892,6 +917,9 @@ func (p *parser) parseContinueStatement() ast.Statement {
 		if !p.scope.inIteration {
 			goto illegal
 		}
+		// Whether the label belongs to an iteration statement is known once the
+		// labelled statement has been parsed (see parseStatement).
+		p.scope.continues = append(p.scope.continues, labelledContinue{label: identifier.Name, idx: idx})
 		p.semicolon()
 		return &ast.BranchStatement{
 			Idx:   idx,
